@@ -52,9 +52,22 @@ CHECKS = {
         "trusted: TLC, the hooks; loop liveness is checked for DAGs whose nodes all use the async-thread resource; completion orders of gathered awaits are randomised, not enumerated",
         "TLA+ reference semantics as oracle (TLC) for sync/async equivalence and gathered awaits + loop-liveness probe"),
 }
+ALSO = {
+ "C02": "also engine E2 (clause C02.value-through-indexing: generated programs that use results and parameters through index paths, also across nested DAG calls)",
+ "C03": "also engines E4 (entry counters over operation histories) and E3 (exactly the selection is entered; runnable debug nodes are taken along)",
+ "C06": "also engine E3 (clause C06.order: mc=1 execution orders of described, reloaded and composed DAGs against the documented compound priority)",
+ "C09": "also engine E4 (every operation of every history returns or raises; concurrent and failing setup())",
+ "C11": "also engine E3 (setup(...) with selections; build-time refusals)",
+ "C13": "also engine E2 (clause C13.call-exec: debug call sites of generated programs, nested DAGs included, in plain calls with the flag on and off)",
+ "C15": "also engines E2C (the original is called again after every composition) and E2 (the last of several calls on one object equals a fresh build's call)",
+ "C17": "also engines E2 (sync / async equivalence of generated programs; coroutines created first, awaited in turn) and E1 (blocking wait on an async-thread node)",
+ "C20": "also engine E2C (every composed DAG is called inside an outer DAG)",
+}
 checks = []
 for p in sorted(CHECKS):
     eng, text, note, tech = CHECKS[p]
+    if p in ALSO:
+        note = note + "; " + ALSO[p]
     checks.append({
         "property_id": p,
         "quick_cmd": f"/venv/bin/python /verif/harness/check.py {p} --tier quick",
